@@ -73,6 +73,21 @@ func NewCollection(idIndex bool) *Collection {
 	return coll
 }
 
+// idsDiffer reports whether two _id values differ. Documents, arrays and
+// binaries cannot be compared with != (it panics at run time), they are
+// compared structurally instead.
+func idsDiffer(a, b interface{}) bool {
+	switch a.(type) {
+	case bson.D, bson.A, primitive.Binary:
+		return bsonkit.Compare(a, b) != 0
+	}
+	switch b.(type) {
+	case bson.D, bson.A, primitive.Binary:
+		return true
+	}
+	return a != b
+}
+
 // Find will look up the documents that match the specified query.
 func (c *Collection) Find(query, sort bsonkit.Doc, skip, limit int) (*Result, error) {
 	// get documents
@@ -173,7 +188,7 @@ func (c *Collection) Replace(query, repl, sort bsonkit.Doc) (*Result, error) {
 		if err != nil {
 			return nil, err
 		}
-	} else if replID != bsonkit.Get(list[0], "_id") {
+	} else if idsDiffer(replID, bsonkit.Get(list[0], "_id")) {
 		return nil, fmt.Errorf("document _id is immutable")
 	}
 
@@ -263,7 +278,7 @@ func (c *Collection) Update(query, update, sort bsonkit.Doc, skip, limit int, ar
 
 	// check ids
 	for i, doc := range newList {
-		if bsonkit.Get(doc, "_id") != bsonkit.Get(list[i], "_id") {
+		if idsDiffer(bsonkit.Get(doc, "_id"), bsonkit.Get(list[i], "_id")) {
 			return nil, fmt.Errorf("document _id is immutable")
 		}
 	}
